@@ -3,6 +3,7 @@ pub mod c02;
 pub mod c03;
 pub mod c05;
 pub mod c06;
+pub mod c08;
 pub mod c10;
 pub mod c11;
 pub mod c12;
@@ -24,6 +25,7 @@ pub fn run_check(id: &str, tier: &str, seed: u64) -> Option<i32> {
         "C04" => c03::run_c04(tier, seed),
         "C05" => c05::run(tier, seed),
         "C06" => c06::run(tier, seed),
+        "C08" => c08::run(tier, seed),
         "C10" => c10::run(tier, seed),
         "C11" => c11::run(tier, seed),
         "C12" => c12::run(tier, seed),
@@ -48,6 +50,7 @@ pub fn replay(replay: &Value) -> Result<Vec<Violation>, String> {
         "C04" => c03::replay_c04(&case_of(replay)?),
         "C05" => c05::replay(replay)?,
         "C06" => c06::replay(replay)?,
+        "C08" => c08::replay(replay)?,
         "C10" | "C10-free" => c10::replay(replay)?,
         "C11" | "C11-sim" => c11::replay(replay)?,
         "C16" => c16::replay(replay)?,
